@@ -616,7 +616,7 @@ func (e *kindEngine) guard(cond ssa.Value, v ssa.Value, depth int) (kset, kset, 
 		// a predicate of the module written in terms of other predicates (isPlainStruct(v) =
 		// IsStruct(v) && !IsCallable(v)): what its own guards establish for the parameter on the
 		// paths that return true (false)
-		if callee := x.Call.StaticCallee(); callee != nil && len(callee.Blocks) > 0 && e.g.InSc[callee] && kindPredicates[shortFn(callee)] == 0 && !inexactPredicates[shortFn(callee)] {
+		if callee := x.Call.StaticCallee(); callee != nil && len(callee.Blocks) > 0 && e.g.InSc[callee] && kindPredicates[shortFn(callee)] == 0 && !inexactPredicates[shortFn(callee)] && shortFn(callee) != "jtypes.IsArrayOf" {
 			for i, a := range x.Call.Args {
 				if a == v && i < len(callee.Params) {
 					if t, f, ok := e.wrapperGuard(callee, i, depth); ok {
@@ -900,7 +900,7 @@ func (e *kindEngine) guardR(cond ssa.Value, x ssa.Value, depth int) (kset, kset,
 			}
 			return kValid, kValid, true
 		}
-		if callee := c.Call.StaticCallee(); callee != nil && len(callee.Blocks) > 0 && e.g.InSc[callee] && kindPredicates[shortFn(callee)] == 0 && !inexactPredicates[shortFn(callee)] {
+		if callee := c.Call.StaticCallee(); callee != nil && len(callee.Blocks) > 0 && e.g.InSc[callee] && kindPredicates[shortFn(callee)] == 0 && !inexactPredicates[shortFn(callee)] && shortFn(callee) != "jtypes.IsArrayOf" {
 			for i, a := range c.Call.Args {
 				if a == x && i < len(callee.Params) {
 					if t, f, ok := e.wrapperGuardR(callee, i, depth); ok {
